@@ -840,7 +840,35 @@ def scen_nested_reuse(rng):
     return {'tree': tree, 'funcs': funcs, 'steps': steps}
 
 
-SCENARIOS = [scen_nested_failure, scen_swap, scen_stale_dir, scen_dups, scen_versions, scen_reads, scen_identity, scen_foreign_swap, scen_sibling_failure, scen_todir, scen_selfread, scen_file_becomes_parent, scen_olddir_becomes_target, scen_prefix_siblings, scen_overlay_order, scen_nested_reuse]
+def scen_double_failure(rng):
+    """a failing build_file whose function first makes a nested build_file fail (caught) in a sibling directory below
+    a common ancestor G, all inside a subbuild that catches and then looks at G; G exists independently of the build
+    at first and is removed (or emptied, or replaced) before the next build: while the record is validated the
+    bookkeeping of the two failures must release every reservation, or the stale answers about G are served"""
+    g = rng.choice(NAMES)
+    e_, d_ = rng.sample(NAMES + ['ab'], 2)
+    outer = '%s/%s/out' % (g, e_)
+    inner = '%s/%s/%s' % (g, d_, rng.choice(['helper', 'deep/helper']))
+    inner_body = rng.choice([[['raise', 4]], [], [['w', None], ['raise', 9]]])
+    outer_tail = rng.choice([[['raise', 5]], [['raise', 2]], []])       # raises, or returns without writing
+    looks = [_q('is_dir', g), _q('exists', g), _q('list_dir', '')] + _probe(rng, [g, '%s/%s' % (g, e_), '%s/%s' % (g, d_), outer, inner], 2)
+    funcs = [
+        _fn('f0', [_sb(1, catch=True)] + _probe(rng, [g, ''], 1)),
+        _fn('f1', [_bf(outer, 2, catch=True)] + looks),
+        _fn('f2', [_bf(inner, 3, catch=True)] + ([_bf('%s/%s/ok' % (g, d_), 4, catch=True)] if rng.random() < 0.3 else []) + outer_tail),
+        _fn('f3', inner_body),
+        _fn('f4', [['w', None]]),
+    ]
+    funcs.append(_fn('rootfail', funcs[0]['stmts'] + [['raise', 99]]))
+    tree = [[g, 'dir']] + ([['README', 'file', 'r', 300]] if rng.random() < 0.5 else [])
+    mut = rng.choice([['mut', 'rmtree', g, None, None], ['mut', 'rmtree', g, None, None], ['mut', 'write', 'zz', 'm', 6300]])
+    steps = [_build(), mut, _build(), _build()]
+    if rng.random() < 0.3:
+        steps += [['mut', 'mkdir', g, None, None], _build()]
+    return {'tree': tree, 'funcs': funcs, 'steps': steps}
+
+
+SCENARIOS = [scen_nested_failure, scen_swap, scen_stale_dir, scen_dups, scen_versions, scen_reads, scen_identity, scen_foreign_swap, scen_sibling_failure, scen_todir, scen_selfread, scen_file_becomes_parent, scen_olddir_becomes_target, scen_prefix_siblings, scen_overlay_order, scen_nested_reuse, scen_double_failure]
 
 
 def gen_scenario_cases(seed, per_family, dirsize=4096, families=SCENARIOS):
